@@ -62,7 +62,7 @@ def build():
             for window in (1, 2):
                 for pf in ([], [['g', 1]]) if gcols else ([],):
                     for side in ('right', 'left'):
-                        for limit in (None, 1, 2):
+                        for limit in (None, 0, 1, 2):
                             pfc = ['t.%s = %d' % (c, v) for c, v in pf]
                             shapes = {'flat': ' and '.join([c for c in [ctext] + pfc if c])}
                             if ctext and pfc:
@@ -81,7 +81,7 @@ def build():
                                 frm = ('int1.%s as t join mindsdb.m as m' % tab) if side == 'right' else \
                                       ('mindsdb.m as m join int1.%s as t' % tab)
                                 sql = 'select * from %s%s%s' % (frm, (' where ' + wtxt) if wtxt else '',
-                                                             ' limit %d' % limit if limit else '')
+                                                             ' limit %d' % limit if limit is not None else '')
                                 spec = dict(cspec, on=1, window=window, tcol='ts', gcols=gcols, pf=pf)
                                 cases.append({'sql': sql, 'spec': spec, 'tab': tab, 'cols': cols, 'window': window,
                                               'gcols': gcols, 'cond': ck, 'side': side, 'limit': limit, 'pf': pf, 'ng': ng,
